@@ -82,7 +82,7 @@ class Message(object):
         self._contents = contents.copy()
         self._serializer = serializer
 
-    def bind(self, **fields):
+    def bind(self, /, **fields):
         """
         Return a new L{Message} with this message's contents plus the
         additional given bindings.
